@@ -41,6 +41,24 @@ Theorem C12_white_to_white_float32 : forall A B : vecG f32,
   Rabs (B2R (v0 r) - B2R (v0 B)) <= / 1000000 /\ Rabs (B2R (v1 r) - B2R (v1 B)) <= / 1000000 /\ Rabs (B2R (v2 r) - B2R (v2 B)) <= / 1000000.
 Proof. exact adapt_white_close. Qed.
 Print Assumptions C12_white_to_white_float32.
+(* the matrix itself, entrywise against the real Bradford adaptation matrix ("equals the Bradford-method
+   matrix": the real matrix is the exact value of what an independent float64 evaluation approximates), and
+   Apply on any colour of magnitude at most 4 *)
+Theorem C12_matrix_float_close : forall A B : vecG f32,
+  white_valid A -> white_valid B -> cones_valid A ->
+  mcl (adaptF A B) (adapt (realV A) (realV B)) (18 / 1000000000) /\
+  mbd (adapt (realV A) (realV B)) (3 * (99 / 100 * (401 / 10) * (172 / 100))).
+Proof. exact adapt_matrix_close. Qed.
+Print Assumptions C12_matrix_float_close.
+Theorem C12_apply_float_close : forall A B c : vecG f32,
+  white_valid A -> white_valid B -> cones_valid A -> white_valid c ->
+  let r := applyF (adaptF A B) c in let x := mulV (adapt (realV A) (realV B)) (realV c) in
+  finV32 r /\
+  Rabs (B2R (v0 r) - v0 x) <= 6 / 100000000 * Rabs (v0 x) + 3 / 10000000 /\
+  Rabs (B2R (v1 r) - v1 x) <= 6 / 100000000 * Rabs (v1 x) + 3 / 10000000 /\
+  Rabs (B2R (v2 r) - v2 x) <= 6 / 100000000 * Rabs (v2 x) + 3 / 10000000.
+Proof. exact apply_close. Qed.
+Print Assumptions C12_apply_float_close.
 Theorem C12_validity_holds_for_D50_and_D65 :
   (white_valid d50_32 /\ cones_valid d50_32) /\ (white_valid d65_32 /\ cones_valid d65_32).
 Proof. exact d50_d65_valid. Qed.
